@@ -778,8 +778,20 @@ def main():
         "correspondence is sampled: agreement is established on the cases run",
     ]
     run.cov["trusted_base"] += ["harness/c09.py, harness/corrlib.py, harness/tzdays.py (generators, adapters, capture subclass, oracle)",
+                                "harness/translate_resample.py (ast extraction of the tests and constants of "
+                                "_compute_temperature_features; fail-closed)",
                                 "pandas semantics re-specified in Model/TempAgg.v / Model/Resample.v; tz database"]
-    run.check_proofs("Properties/C09.v", ["Proofs/TempAggProofs.v"])
+    gen = None
+    try:
+        import translate_resample
+        gen = translate_resample.generate(run, which=("temp",))
+        run.cov["translated"] = {"daily": str(gen["temp_daily"]), "billing": str(gen["temp_billing"])}
+    except Exception as e:  # noqa  - fail closed
+        run.proof_ok = False
+        run.proof_log += "translator failed: %s: %s" % (type(e).__name__, e)
+        run.log("TRANSLATOR FAILED: %s: %s" % (type(e).__name__, e))
+    run.check_proofs("Properties/C09.v", ["Proofs/TempAggProofs.v", "Proofs/TempAggGenProofs.v"],
+                     generated=["Generated/TempAggGen.v"])
     run.log("theorems re-checked: %d/%d" % (run.cov["discharged"], run.cov["obligations"]))
     run.ensure_models(["Model/TempAggRun.v", "Model/CasesLib.v"])
     run.log("models built")
@@ -788,6 +800,11 @@ def main():
     flags = probe()
     run.cov["model_variant"] = flags
     run.log("probe: %s" % flags)
+    if gen is not None and (bool(gen["temp_daily"]["scaled"]) != bool(flags["scale"])
+                            or bool(gen["temp_billing"]["scaled"]) != bool(flags["scale"])):
+        run.corr_failures.append({"stream": "variant", "case": {"probe": flags["probe"], "translated_scaled":
+                                                                 [gen["temp_daily"]["scaled"], gen["temp_billing"]["scaled"]]},
+                                  "impl": "probe", "model": "Generated/TempAggGen.v gen_*_scaled"})
     flags = {"scale": flags["scale"], "exact": flags["exact"]}
     scale = float(os.environ.get("VERIF_SCALE", "1"))      # development aid only
 
